@@ -37,13 +37,15 @@ fn app_strs(v: &Value) -> Vec<String> {
 }
 
 fn builder(case: &Value, style: usize) -> (log4rs::config::runtime::ConfigBuilder, log4rs::config::Root) {
+    // (a run of one declaration goes through the single-item method or through the bulk method with one item)
+    let single = |len: usize, k: usize| len == 1 && (crate::util::mix(style) >> (9 + k)) & 1 == 0;
     let mut b = log4rs::Config::builder();
     let apps: Vec<log4rs::config::Appender> = app_strs(&case["apps"])
         .into_iter()
         .map(|a| log4rs::config::Appender::builder().build(a, Box::new(CountingAppender(Arc::new(Counter::default())))))
         .collect();
     for mut run in runs(apps, style) {
-        b = if run.len() == 1 { b.appender(run.pop().unwrap()) } else { b.appenders(run) };
+        b = if single(run.len(), 0) { b.appender(run.pop().unwrap()) } else { b.appenders(run) };
     }
     let loggers: Vec<log4rs::config::Logger> = case["loggers"]
         .as_array()
@@ -53,17 +55,17 @@ fn builder(case: &Value, style: usize) -> (log4rs::config::runtime::ConfigBuilde
         .map(|(li, l)| {
             let mut lb = log4rs::config::Logger::builder();
             for mut run in runs(app_strs(&l["refs"]), style / 5 + li) {
-                lb = if run.len() == 1 { lb.appender(run.pop().unwrap()) } else { lb.appenders(run) };
+                lb = if single(run.len(), 1 + li) { lb.appender(run.pop().unwrap()) } else { lb.appenders(run) };
             }
             lb.build(l["name"].as_str().unwrap(), log::LevelFilter::Info)
         })
         .collect();
     for mut run in runs(loggers, style / 5) {
-        b = if run.len() == 1 { b.logger(run.pop().unwrap()) } else { b.loggers(run) };
+        b = if single(run.len(), 5) { b.logger(run.pop().unwrap()) } else { b.loggers(run) };
     }
     let mut rb = log4rs::config::Root::builder();
     for mut run in runs(app_strs(&case["root"]), style / 25 + style) {
-        rb = if run.len() == 1 { rb.appender(run.pop().unwrap()) } else { rb.appenders(run) };
+        rb = if single(run.len(), 6) { rb.appender(run.pop().unwrap()) } else { rb.appenders(run) };
     }
     (b, rb.build(log::LevelFilter::Info))
 }
